@@ -201,6 +201,29 @@ def run(ck):
         d = Float.from_float(f)
         if float(d) != f:
             ck.violation('Float.from_float -> float round trip changed the value', {'float': f.hex()})
+    # non-finite native floats: conversion must raise, mixed arithmetic follows IEEE sign rules
+    for bad in (float('inf'), float('-inf'), float('nan')):
+        glue += 1
+        try:
+            r = RealFloat.from_float(bad)
+            ck.violation('RealFloat.from_float accepted a non-finite float (a RealFloat cannot denote it)', {'float': repr(bad), 'got': repr(r)})
+        except ValueError:
+            pass
+    for x in reals[1::7] + wide[:4]:
+        for inf in (float('inf'), float('-inf')):
+            glue += 2
+            if x.c != 0:
+                want = math.copysign(float('inf'), (-1.0 if x.s else 1.0) * (1.0 if inf > 0 else -1.0))
+                for got, nm in ((x * inf, 'x * inf'), (inf * x, 'inf * x')):
+                    if not (isinstance(got, float) and got == want):
+                        ck.violation('RealFloat times a float infinity has the wrong sign or class', {'x': repr(x), 'other': repr(inf), 'expr': nm, 'got': repr(got), 'expected': repr(want)})
+            for got, nm in ((x + inf, 'x + inf'), (inf + x, 'inf + x')):
+                if not (isinstance(got, float) and got == inf):
+                    ck.violation('RealFloat plus a float infinity is not that infinity', {'x': repr(x), 'other': repr(inf), 'expr': nm, 'got': repr(got)})
+        glue += 1
+        r = x * float('nan')
+        if not (isinstance(r, float) and math.isnan(r)):
+            ck.violation('RealFloat times NaN is not NaN', {'x': repr(x), 'got': repr(r)})
     ck.evaluations += glue
     ck.count('glue(mixed-type compare/eq/hash, native conversions)', glue)
 
